@@ -15,6 +15,7 @@ sys.path.insert(0, os.path.dirname(os.path.abspath(__file__)))
 sys.path.insert(0, os.environ.get('VERIF_REPO', '/repo'))
 
 import corpus  # noqa: E402
+import rec_ctx  # noqa: E402
 import ctxplan  # noqa: E402
 
 
@@ -455,7 +456,8 @@ def main():
             rng = random.Random(f'{a.seed}:persist:{b}')
             heavy = (b % 7 == 0) or t.tag.startswith(('chain', 'contranominal', 'dense'))
             try:
-                behaviour(rec, t, b, rng, b % 3, a.tier, heavy)
+                with rec_ctx.watchdog(3 * rec_ctx.CALL_TIMEOUT):
+                    behaviour(rec, t, b, rng, b % 3, a.tier, heavy)
             except Exception as exc:
                 rec.b = b
                 rec.ev('crash', prop='C11', call='behaviour', exc=type(exc).__name__, msg=str(exc)[:300])
